@@ -196,6 +196,10 @@ func checkC10(c *Ctx) {
 	ruleRegisterBeforeFlush(c, "C10.g")
 	c.rule("C10.h", "while a response is being read the read deadline is always finite", 3)
 	ruleReadDeadline(c, "C10.h")
+	c.rule("C10.i", "the encoder lock taken by beginCommand is released on every path, or owned by a command object that reaches the caller and whose Close releases it", 35)
+	ruleCommandEncoderPairing(c, "C10.i")
+	c.rule("C10.j", "a hand-over counter compared with cap(ch) is incremented before the send of the same round", 1)
+	ruleCountBeforeSend(c, "C10.j")
 }
 
 // ruleRegisterBeforeFlush: in every client function that both registers
